@@ -1,25 +1,49 @@
 """C17 — check configuration and MANIFEST entry."""
 CFG = {
-    "count": {"quick": 12000, "thorough": 600000},
-    "lean_files": ["GeoModel/Prepared.lean", "GeoModel/RelateSpec.lean", "GeoModel/Valid.lean", "GeoModel/Ops/C17.lean"],
-    "rule": "histories of 3..10 relate calls over 2..3 geometries of any type from one shared grid; each operand of each call is the plain geometry, "
-            "an owned PreparedGeometry or a borrowed PreparedGeometry (created once, reused for the rest of the history), in either position, repeats "
-            "included; every answer is compared with the executable DE-9IM specification of the underlying geometries. distinct by input text; "
-            "histories without any prepared operand are tagged triv.",
+    "count": {"quick": 16000, "thorough": 640000},
+    "lean_files": ["GeoModel/Prepared.lean", "GeoModel/GeomGraph.lean", "GeoModel/Winding.lean", "GeoModel/RelateSpec.lean",
+                   "GeoModel/Valid.lean", "GeoModel/Ops/C17.lean"],
+    "rule": "three cases in four (C17.hist): histories of 3..10 relate calls over 2..3 geometries of any type from one shared grid; each operand of "
+            "each call is the plain geometry, an owned PreparedGeometry or a borrowed PreparedGeometry (created once, reused for the rest of the "
+            "history), in either position, repeats included; every answer is compared with the plain answer and with the executable DE-9IM "
+            "specification of the underlying geometries; after every call the dump of each prepared operand's cache must be what it was before the call, and the graph "
+            "it hands out must equal the freshly built self-noded graph (digests of the hook dumps); histories without any prepared operand are tagged triv. One case in four (C17.graph): one "
+            "geometry of any type (valid shapes, and shapes made to exercise graph construction: repeated coordinates, closed / collapsed / empty line "
+            "strings sharing end points on a 2x2 grid, rings in either direction with rotated start, degenerate rings, polygons with an empty shell, "
+            "nested collections with multipolygons) and an operand position; through the verif-hooks dump the graph built by GeometryGraph::new is "
+            "compared exactly with the Lean model buildGraph (edges in insertion order with coordinates and both label slots, nodes in node-map order, "
+            "the boundary-rule flag), the self-noded fresh graph must equal the clone handed out by a PreparedGeometry token for token (including "
+            "intersection lists and is_isolated), and the nodes of both must equal the model's add_self_intersection_nodes run on the recorded "
+            "intersection coordinates; empty graphs are tagged triv. distinct by input text.",
     "trusted_base": [
-        "the matrix computation after graph construction is shared by both paths in the code and is represented by the DE-9IM specification (C01)",
+        "the matrix computation after graph construction and self-noding is shared by both paths in the code and is represented by the DE-9IM specification (C01)",
         "rstar envelope queries return every stored segment whose envelope intersects the query (assumption on the external crate)",
-        "that clone_for_arg_index deep-copies the Rc<RefCell<Edge>>s is observed through the answers of later calls, not proved about Rust",
+        "the intersection coordinates recorded on the edges during self-noding are taken from the implementation (line intersection is C11's subject); "
+        "the model covers graph construction before self-noding and the node-insertion step after it",
+        "that clone_for_arg_index deep-copies the Rc<RefCell<Edge>>s is observed (answers of later calls; dump of the clone against a fresh graph), not proved about Rust",
+        "the verif-hooks dump function (geo/src/algorithm/relate/mod.rs, `verif`) prints the graph faithfully",
     ],
-    "assumptions": ["valid operands (GeoModel/Valid.lean); grid coordinates"],
+    "assumptions": ["valid operands (GeoModel/Valid.lean) for the comparison with the true matrix; none for prepared == plain and for the graph cases; grid coordinates"],
 }
 
 MANIFEST = {
-    "technique": "Lean 4 proof (state machine: cache immutability ⇒ history independence; label-swap and candidate-completeness lemmas) + correspondence on random call histories against the DE-9IM specification",
-    "text": "Model: a table of prepared geometries whose cached graphs are only ever cloned. Proved: swap_labels is an involution and turns the graph built for "
-            "argument 0 into the one built for argument 1 (cloneForArg_eq_fresh, both operand positions), a relate call leaves the table unchanged, and by induction "
-            "over any history the k-th answer equals the one-shot answer on the underlying geometries (runCalls_eq, prepared_eq_plain); intersecting segments have "
-            "intersecting envelopes (candidates_complete), so an envelope index misses no intersection. Correspondence: random histories mixing plain / owned-prepared / "
-            "borrowed-prepared operands with reuse; every answer must equal the specification's matrix.",
-    "note": "Trusted: Lean kernel + audited axioms; harness (sampling); rstar completeness; the Rust-level deep copy is observed, not proved.",
+    "technique": "Lean 4 proof (concrete model of GeometryGraph::new: label-swap theorem by mutual structural induction over all geometry types, mod-2 boundary rule, "
+                 "ring-direction independence; state machine: cache immutability ⇒ history independence; candidate completeness) + correspondence on random call "
+                 "histories against the DE-9IM specification and on graph dumps of the real code through a verif-hooks function",
+    "text": "Model: buildGraph idx g mirrors GeometryGraph::new (add_point / add_line / add_line_string with insert_boundary_point toggling / add_polygon_ring with "
+            "left-right from the winding order, repeated coordinates removed / recursion over Multi* and collections; labels as in label.rs and topology_position.rs), "
+            "swapLabels and cloneForArg mirror planar_graph.rs, addSelfIntersectionNodes mirrors the node-insertion step of compute_self_nodes. Proved for every "
+            "geometry of every type: (buildGraph 0 g).swapLabels = buildGraph 1 g (swap_buildGraph, via every construction step commuting with the swap on every "
+            "starting graph), the same after self-noding for any recorded intersections (swap_selfNodes), hence clone_for_arg_index of the cache equals the fresh "
+            "graph in both operand positions (cloneForArg_buildGraph, cloneForArg_noded_eq_fresh); building for index 0 leaves slot 1 unset on every node and edge (buildGraph_other_slot_unset) and the node-map order is label-blind (sortNodes_swapLabels); the mod-2 rule: a node of a MultiLineString graph is OnBoundary "
+            "iff it is an end point of an odd number of members (mod2_rule, boundary_iff_odd; mod2_rule_after_collapsed for members collapsing to one point, which "
+            "the code treats as points); the edge a polygon ring contributes does not depend on the ring's direction up to reversing it and exchanging left and "
+            "right (ring_label_reverse_partial: for rings whose lexicographically least point is visited once, as in C05), and marks the same node "
+            "(ring_node_reverse). Kept from before: swap_labels is an involution, a relate call leaves the table of prepared geometries unchanged and by "
+            "induction over any history the k-th answer equals the one-shot answer (runCalls_eq, prepared_eq_plain); intersecting segments have intersecting "
+            "envelopes (candidates_complete). Correspondence: random histories mixing plain / owned-prepared / borrowed-prepared operands with reuse, every answer "
+            "must equal the plain answer and the specification's matrix; and graph dumps of the real code (fresh, fresh self-noded, prepared clone) for both "
+            "operand positions against buildGraph and against each other.",
+    "note": "Trusted: Lean kernel + audited axioms; harness (sampling) and the dump hook; rstar completeness; intersection coordinates of self-noding come from the "
+            "implementation; the Rust-level deep copy is observed, not proved.",
 }
